@@ -61,6 +61,7 @@
 	X(mpi_empty_probe, 0) /* percent of probes that report nothing although a message is matchable */            \
 	X(mpi_coll_delay, 0)  /* max extra MPI_Test calls before a collective completes */                           \
 	X(edge_every, 0)    /* basic-block preemption: yield every ~n edges (0 = off) */                              \
+	X(horizon, 250000)  /* fault horizon: after this many scheduling points no more stalls, delays, jumps */              \
 	X(max_sps, 3000000) /* livelock budget */                                                                     \
 	/* unit engines */                                                                                             \
 	X(u_ops, 40)                                                                                                   \
@@ -159,6 +160,7 @@ extern struct vthread *sim_spawn(int kind, int rank, void *(*fn)(void *), void *
 extern void sim_run_all(void); /* controller: hand over and wait until every vthread is done */
 extern void sim_block_until(int (*pred)(void *), void *arg, const char *what);
 extern void sim_yield(void); /* a scheduling point that is not an atomic */
+extern void sim_yield_at(const char *what);
 extern void sim_progress(void);
 extern int sim_commit(int kind, int n, int v);
 extern void sim_event(uint64_t tag, uint64_t a, uint64_t b);
